@@ -7,4 +7,7 @@ KTxs == {"txs"}
 KAll == {"heads", "events", "status", "txs"}
 KHE == {"heads", "events"}
 NoL1 == -1
+BidsSmall == {[k |-> "latest", n |-> 0], [k |-> "num", n |-> 0], [k |-> "num", n |-> 1]}
+BidsLatest == {[k |-> "latest", n |-> 0]}
+BidsMed == {[k |-> "latest", n |-> 0], [k |-> "num", n |-> 0], [k |-> "num", n |-> 1], [k |-> "num", n |-> 3], [k |-> "hash", n |-> 2], [k |-> "hash", n |-> 9]}
 =============================================================================
